@@ -75,6 +75,10 @@ fn shrink_and_report(run: &Run, p: Prof, s: &str) {
     sc.frozen = true;
     if let Err(v) = check(p, &t, &mut sc) {
         run.violate(v);
+    } else if let Err(v) = check(p, s, &mut Local::scratch()) {
+        // the shrunk copy (a freshly allocated String) passes: the failure depends on the argument as it was handed over (e.g. the
+        // address of a &str view); reported as found
+        run.violate(v);
     }
 }
 
@@ -243,6 +247,12 @@ pub fn run(run: &Run) {
             false
         }
     }));
+    super::pipe::pointer_offset_sweep(run, &["  ", " ", "\u{a0}", "\u{3000}", " \u{a0}", "\u{2003} ", "\u{1680}", "x  y", "   ", "\u{a0}\u{a0}"], &|s, l| {
+        for p in profs {
+            check(p, s, l)?;
+        }
+        Ok(())
+    });
     super::pipe::stress(run, "alignment_and_runs", &super::pipe::PAYLOADS_SPACE, &|s, l| {
         for p in profs {
             if check(p, s, l).is_err() {
